@@ -1078,6 +1078,10 @@ class Manager:
                     # stopping has queued.
                     while len(self._queue):
                         self.tick()
+                    # ... and fade out as above (steps of generator
+                    # handlers of these events)
+                    for _ in range(3):
+                        self.tick()
             finally:
                 self.root._executing_thread = None
                 self.__thread = None
